@@ -168,6 +168,7 @@ def install(lib):
     w.no_frame = True
     w.finish = worker_finish
     w.at_yield = worker_at_yield
+    w.unit_param = "item"
     w.shared_fields = shared
     w.rely = rely
     w.nshards = 8
@@ -219,6 +220,9 @@ def install(lib):
             drawn = z3.Or(d.tag == V.T_GEN, d.tag == V.T_FUNC)
             cnt = z3.Sum([z3.If(z3.And(c_[3], c_[1] == d.oid), 1, 0) for c_ in cs]) if cs else z3.IntVal(0)
             out.append(("processing-delay-drawn-exactly-once", z3.Implies(drawn, cnt == 1)))
+            early = [c_ for c_ in cs if len(c_) > 4 and c_[4] == 0]
+            out.append(("processing-delay-drawn-for-the-item-just-pulled", z3.And(*[
+                z3.Not(z3.And(c_[3], c_[1] == d.oid)) for c_ in early]) if early else z3.BoolVal(True), ("C08",)))
             # C15: the recorded in-edge is the edge the item was taken from
             H0, H1 = head_f["stats.in_edge_selection"], st.f["stats.in_edge_selection"]
             ie = st.f["in_edges"].val
